@@ -30,6 +30,7 @@ import (
 	"encoding/base64"
 	"encoding/hex"
 	"fmt"
+	"io"
 	"net/http"
 	"net/http/httptest"
 	"regexp"
@@ -300,6 +301,8 @@ type tkInst struct {
 	serverID  string
 	rehydrate bool
 	hook      bool
+	external  bool // the server has an ExternalLocationConfig (fetches pointer batches)
+	store     *tkStore
 	srv       *vgirpc.Server
 	h         *vgirpc.HttpServer
 }
@@ -336,6 +339,18 @@ type tkWorld struct {
 	warm     map[string][]string // instance|callID -> identities that legitimately warmed a cache entry there
 }
 
+// tkStore is the fake object store behind an instance's external-location config: an
+// http.RoundTripper that serves uploaded IPC streams from memory (no network).
+type tkStore struct{ objects map[string][]byte }
+
+func (st *tkStore) RoundTrip(req *http.Request) (*http.Response, error) {
+	b, ok := st.objects[req.URL.String()]
+	if !ok {
+		return &http.Response{StatusCode: 404, Body: io.NopCloser(bytes.NewReader(nil)), Header: http.Header{}, Request: req}, nil
+	}
+	return &http.Response{StatusCode: 200, Body: io.NopCloser(bytes.NewReader(b)), ContentLength: int64(len(b)), Header: http.Header{}, Request: req}, nil
+}
+
 type tkHook struct{}
 
 func (tkHook) OnDispatchStart(ctx context.Context, info vgirpc.DispatchInfo) (context.Context, vgirpc.HookToken) {
@@ -363,6 +378,7 @@ func (w *tkWorld) newInst(name string, f map[string]string) *tkInst {
 	in.serverID = UnXS(f["sid"])
 	in.rehydrate = f["rehydrate"] == "1"
 	in.hook = f["hook"] == "1"
+	in.external = f["ext"] == "1"
 
 	s := vgirpc.NewServer()
 	s.SetServerID(in.serverID)
@@ -407,6 +423,10 @@ func (w *tkWorld) newInst(name string, f map[string]string) *tkInst {
 	})
 	if in.hook {
 		s.SetDispatchHook(tkHook{})
+	}
+	if in.external {
+		in.store = &tkStore{objects: map[string][]byte{}}
+		s.SetExternalLocation(&vgirpc.ExternalLocationConfig{HTTPClient: &http.Client{Transport: in.store}})
 	}
 	h, err := vgirpc.NewHttpServerWithKey(s, in.key)
 	if err != nil {
@@ -462,6 +482,25 @@ type tkResp struct {
 	message string
 	kind    string // vgi_rpc.error_kind
 	hasExc  bool
+}
+
+// tkPointerIPC: a zero-row external-location pointer batch carrying meta.
+func tkPointerIPC(meta arrow.Metadata, in string) []byte {
+	schema := tkSchema
+	if in == "i32" {
+		schema = tkSchema32
+	}
+	rec, _ := vgirpc.MakeExternalLocationBatch(schema, "unused")
+	defer rec.Release()
+	withMeta := array.NewRecordBatchWithMetadata(schema, rec.Columns(), 0, meta)
+	defer withMeta.Release()
+	var buf bytes.Buffer
+	wr := ipc.NewWriter(&buf, ipc.WithSchema(schema))
+	if err := wr.Write(withMeta); err != nil {
+		panic(err)
+	}
+	wr.Close()
+	return buf.Bytes()
 }
 
 func tkIPC(meta arrow.Metadata, in string) []byte {
@@ -1007,7 +1046,43 @@ func (w *tkWorld) opCont(l string, f []string, kv map[string]string) {
 	if inKind != "i32" {
 		inKind = "i64"
 	}
-	body := tkIPC(arrow.NewMetadata(keys, vals), inKind)
+	// ptr=1: the continuation's input is externalized — the POST carries a zero-row pointer batch
+	// (tokens cur/call on it), the uploaded batch (tokens xcur/xcall on it) sits in the instance's store
+	ptr := kv["ptr"] == "1"
+	xcur, xcurBase, xcurAlt := w.tokRef(kv["xcur"])
+	xcall, xcallBase, xcallAlt := w.tokRef(kv["xcall"])
+	xcurPresent := ptr && kv["xcur"] != "-" && kv["xcur"] != "" && (xcurBase != nil || strings.HasPrefix(kv["xcur"], "x"))
+	xcallPresent := ptr && kv["xcall"] != "-" && kv["xcall"] != "" && (xcallBase != nil || strings.HasPrefix(kv["xcall"], "x"))
+	var body []byte
+	if ptr {
+		url := fmt.Sprintf("http://store.test/obj/%d", len(w.c.modelIn))
+		var xk, xv []string
+		if xcurPresent {
+			xk, xv = append(xk, vgirpc.MetaStreamState), append(xv, string(xcur))
+		}
+		if xcallPresent {
+			xk, xv = append(xk, vgirpc.MetaCallState), append(xv, string(xcall))
+		}
+		if in.store != nil {
+			in.store.objects[url] = tkIPC(arrow.NewMetadata(xk, xv), inKind)
+		}
+		keys, vals = append(keys, vgirpc.MetaLocation), append(vals, url)
+		body = tkPointerIPC(arrow.NewMetadata(keys, vals), inKind)
+	} else {
+		body = tkIPC(arrow.NewMetadata(keys, vals), inKind)
+	}
+	// which tokens decide, restated from the documented behaviour (the oracles judge these): the
+	// uploaded batch's cursor / call token supersede the pointer's when the server fetches
+	ext := ptr && in.external
+	ptrCur, ptrCall, ptrCurPresent, ptrCallPresent := cur, call, curPresent, callPresent
+	if ext && !cancel {
+		if xcurPresent {
+			cur, curBase, curAlt, curPresent = xcur, xcurBase, xcurAlt, true
+		}
+		if xcallPresent {
+			call, callBase, callAlt, callPresent = xcall, xcallBase, xcallAlt, true
+		}
+	}
 
 	// was the call-state cache going to answer? (observed, before the request, for the oracles only)
 	cacheHit := false
@@ -1053,7 +1128,10 @@ func (w *tkWorld) opCont(l string, f []string, kv map[string]string) {
 	}
 	obs := fmt.Sprintf("%s %s ev=%s next=%s", tkStatus(r), tkDecision(r), events, next)
 	ml := fmt.Sprintf("cont %s %s %s cur=%s call=%s cancel=%s sess=%s now=%d", f[1], ident, method,
-		tkOpt(cur, curPresent), tkOpt(call, callPresent), map[bool]string{true: "1", false: "0"}[cancel], tkOpt(sess, sessPresent), now)
+		tkOpt(ptrCur, ptrCurPresent), tkOpt(ptrCall, ptrCallPresent), map[bool]string{true: "1", false: "0"}[cancel], tkOpt(sess, sessPresent), now)
+	if ptr {
+		ml += fmt.Sprintf(" ext=%d xcur=%s xcall=%s", b2i(ext), tkOpt(xcur, xcurPresent), tkOpt(xcall, xcallPresent))
+	}
 	ml += " in=" + inKind
 	if ns != nil {
 		ml += fmt.Sprintf(" ncreated=%d new=%s", ns.vcreat, X(newTok))
@@ -1084,8 +1162,8 @@ func (w *tkWorld) opCont(l string, f []string, kv map[string]string) {
 	w.contOracles(l, in, ident, method, r, cls, accepted, cacheHit, cur, curBase, curAlt, curPresent, call, callBase, callAlt, callPresent, now)
 	seen := ""
 	for _, e := range w.events {
-		if strings.HasPrefix(e, "exchange:") {
-			seen = e
+		if strings.HasPrefix(e, "exchange:") || strings.HasPrefix(e, "hs:") {
+			seen += e + " " // what user code observed of the resolved call: stream id (hook), input schema (handler)
 		}
 	}
 	if kv["pair"] == "1" {
@@ -1093,7 +1171,7 @@ func (w *tkWorld) opCont(l string, f []string, kv map[string]string) {
 		if w.lastPair != "" && w.lastPair != dec {
 			w.oracle("C15", "cache-changes-outcome", fmt.Sprintf("%q: this instance answered %q, the cache-less instance sharing the key answered %q to the same request", l, dec, w.lastPair))
 		} else if w.lastPair != "" && w.lastSeen != seen {
-			w.oracle("C15", "cache-changes-handler-input", fmt.Sprintf("%q: the handler on this instance received %q, on the cache-less instance sharing the key %q, for the same request", l, seen, w.lastSeen))
+			w.oracle("C15", "cache-changes-handler-input", fmt.Sprintf("%q: user code on this instance observed %q, on the cache-less instance sharing the key %q, for the same request", l, seen, w.lastSeen))
 		}
 	}
 	w.lastPair, w.lastSeen = tkStatus(r)+" "+tkDecision(r), seen
